@@ -317,7 +317,7 @@ impl Prop for C05 {
                     }
                     return;
                 }
-                let mut pred = predict(&world.root, before, s, Reading::Condition);
+                let mut pred = super::predict_seen(world, before, s, o, Reading::Condition);
                 if !pred.structural {
                     return;
                 }
@@ -407,7 +407,7 @@ impl Prop for C05 {
                                     i,
                                     format!("message {}: formatter call #{} ({}) failed with {:?} but run returned Ok", msgd, fire_index(&s.fmt), fire.call, injected),
                                 )),
-                                Err(e) if *e != injected => out.push(Finding::new(
+                                Err(e) if !e.reports(&injected) => out.push(Finding::new(
                                     "C05.returns_first_error",
                                     "formatter_error_replaced",
                                     i,
